@@ -47,6 +47,10 @@ def handle (st : St) (toks : List String) : Option (St × String) :=
     -- C15: the listing in the order of (re)saving
     let d ← pDir d
     some (st, "[" ++ " | ".intercalate ((st.sess.allPackets d).map showPacket) ++ "]")
+  | ["clear", d] => do
+    -- the store of one direction starts again from nothing (the saves that follow rebuild it: NewPacketStoreWithPackets)
+    let d ← pDir d
+    some ({ sess := st.sess.setStore d {} }, "ok")
   | ["reset"] => some ({ sess := st.sess.reset }, "ok")
   | _ => none
 
